@@ -38,7 +38,8 @@ def named_components(schema: dict) -> dict:
             zones = {zi: z for zi, z in zones.items() if z["class"] or z["sensor"] or z["actuators"]}
             dhw = v.get("stored_hotwater") or {}
             dhw = {p: dhw.get(p) for p in ("sensor", "hotwater_valve", "heating_valve")}
-            out[k] = {"zones": zones,
+            out[k] = {"ufh_controllers": sorted(v.get("underfloor_heating") or {}),  # which UFH controllers this controller owns
+                      "zones": zones,
                       "dhw": dhw if any(dhw.values()) else {},  # a DHW subsystem with no known part == none
                       "appliance_control": (v.get("system") or {}).get("appliance_control")}
     return out
@@ -260,6 +261,8 @@ def schema_strategy(st: Any) -> Any:
                 if draw(st.booleans()):
                     dhw["heating_valve"] = new_id(("13",))
                 s["stored_hotwater"] = dhw
+            if draw(st.integers(0, 2)) == 0:
+                s["underfloor_heating"] = {new_id(("02",)): {} for _ in range(draw(st.integers(1, 2)))}
             app = draw(st.sampled_from((None, "13", "10")))
             if app:
                 s["system"] = {"appliance_control": new_id((app,))}
